@@ -43,6 +43,15 @@ using L_P8 = List<D<P, Asg>, D<P, Trk>>;
 using L_P9 = List<D<P, Asg>, D<P, u8>>;
 using L_F9 = List<D<F, Asg>, D<P, Trk>>;
 using L_V12 = List<D<P, sz, 8>, D<V, Asg>, D<P, Trk>>;
+// unusual but legal value types: an over-aligned 32-byte class, bool, an enum, a pointer, an empty class
+using L_P10 = List<D<P, Big32, 32>, D<P, u8>>;
+using L_P11 = List<D<P, bool>, D<P, Ptr>, D<P, En>, D<P, Emp>, D<P, u16>>;
+using L_F10 = List<D<P, u8>, D<F, Big32, 32>, D<P, bool>>;
+using L_V13 = List<D<P, sz, 8>, D<V, Big32, 32>, D<P, En>>;
+// many parameters: three VaryingSize parameters with three count types; two FixedSize and one VaryingSize parameter with
+// decreasing alignments
+using L_V14 = List<D<P, u8>, D<V, u16>, D<P, u32>, D<V, u8>, D<P, u16>, D<V, f32>>;
+using L_M4 = List<D<F, u8>, D<P, u16>, D<P, sz, 8>, D<V, u32>, D<F, u16, 4>, D<P, u8>>;
 // mixed
 using L_M1 = List<D<F, f32, 16>, D<P, u32>, D<P, sz, 8>, D<V, f32, 8>>;
 using L_M2 = List<D<F, Trk>, D<P, u8>, D<V, Trk>>;
